@@ -5,7 +5,7 @@ import (
 	"strings"
 )
 
-const c05Rule = "keyword sets of 1..8 keywords over an 8-rune alphabet (a b c space 日 é x y; overlapping, nested, prefix/suffix chains, duplicates, keywords containing the separator, 1..3-byte runes), query texts of 0..12 runes given as a string, a []string or a []interface{} of 1..3 texts (joined by one space); half of the cases over TWO pattern fields sharing one keyword set; one document per keyword (validates the automaton against substring semantics) and the separator corner (list assignments with empty parts, keywords beginning / ending with / consisting of the separator), texts containing several different keywords, and mixed documents (pattern include/exclude combined with default fields in one conjunction) on the k-groups, compact and roaring indexes. cached builds (cold, then served from a shared cache provider by fresh builders) of conjunctions mixing a short keyword list with a long ordinary expression; pattern holders whose different keyword sets coincide once sorted and joined by a space (two size groups, two fields); Non-trivial = some query returns a non-empty proper subset of the documents; distinct = distinct input"
+const c05Rule = "keyword sets of 1..8 keywords over an 8-rune alphabet (a b c space 日 é x y; overlapping, nested, prefix/suffix chains, duplicates, keywords containing the separator, 1..3-byte runes), query texts of 0..12 runes given as a string, a []string or a []interface{} of 1..3 texts (joined by one space); half of the cases over TWO pattern fields sharing one keyword set; one document per keyword (validates the automaton against substring semantics) and the separator corner (list assignments with empty parts, keywords beginning / ending with / consisting of the separator), texts containing several different keywords, and mixed documents (pattern include/exclude combined with default fields in one conjunction) on the k-groups, compact and roaring indexes. cached builds (cold, then served from a shared cache provider by fresh builders) of conjunctions mixing a short keyword list with a long ordinary expression; pattern holders whose different keyword sets coincide once sorted and joined by a space (two size groups, two fields); posting-list builders built twice without Reset, the later documents listing keywords known at the first build; Non-trivial = some query returns a non-empty proper subset of the documents; distinct = distinct input"
 
 var acAlphabet = []string{"a", "b", "c", " ", "日", "é", "x", "ab"}
 
@@ -278,6 +278,7 @@ func init() {
 			acRebuildCases(add)
 			acCachedCases(add)
 			acJoinedDictionaries(add)
+			acSecondBuild(add)
 			for i := 0; i < n; i++ {
 				acTwoPatternFields = i%4 == 1 || i%4 == 3 // two pattern fields: each must keep its own keywords
 				docs, qs := acDocsQueries(r, i%2 == 0)
@@ -397,5 +398,31 @@ func acJoinedDictionaries(add func(in interface{})) {
 			b.Queries = append(b.Queries, eQuery{A: []eAssign{txt(1, q[0]), txt(2, q[1])}}, eQuery{A: []eAssign{txt(1, q[0])}}, eQuery{A: []eAssign{txt(2, q[1])}})
 		}
 		add(b)
+	}
+}
+
+// acSecondBuild: one posting-list builder, BuildIndex, more documents, BuildIndex (no Reset): the later documents list
+// keywords the holder knew at the first build (their posting lists grow after a compile) next to new ones
+func acSecondBuild(add func(in interface{})) {
+	kw := func(inc bool, ss ...string) eExpr {
+		l := make([]TV, len(ss))
+		for i, s := range ss {
+			l[i] = tvStr(s)
+		}
+		return eExpr{F: 1, Inc: inc, V: tvSlice("[]string", l...)}
+	}
+	for _, kind := range []string{"kgroups", "compact"} {
+		for _, rebuild := range []int{4, 2} {
+			c := eCase{Kind: kind, Policy: "error", Configs: map[int]string{1: "ac_matcher"}, Rebuild: rebuild}
+			c.Docs = []eDoc{
+				{ID: 1, Cons: []eConj{{kw(true, "red")}}}, {ID: 2, Cons: []eConj{{kw(true, "green")}}}, {ID: 3, Cons: []eConj{{kw(true, "blue", "red")}}}, {ID: 4, Cons: []eConj{{kw(false, "black")}}},
+				{ID: 5, Cons: []eConj{{kw(true, "green")}}}, {ID: 6, Cons: []eConj{{kw(true, "red", "white")}}}, {ID: 7, Cons: []eConj{{kw(true, "blue")}}}, {ID: 8, Cons: []eConj{{kw(false, "black", "green")}}},
+				{ID: -9, Cons: []eConj{{kw(true, "black")}, {kw(true, "green"), {F: 0, Inc: true, V: tvSlice("[]int", tvInt("int", 1))}}}},
+			}
+			for _, t := range []string{"a green box", "red", "blue and white", "black", "green black", "none", "white red"} {
+				c.Queries = append(c.Queries, eQuery{A: []eAssign{{F: 1, V: tvStr(t)}}}, eQuery{A: []eAssign{{F: 1, V: tvStr(t)}, {F: 0, V: tvInt("int", 1)}}})
+			}
+			add(c)
+		}
 	}
 }
